@@ -66,6 +66,7 @@ theorem step_done (c : Cfg) (s : St) (e : Ev) :
     · exact Or.inl hn
   | nodeFailed m => exact Or.inl hn
   | nodeReset m => exact Or.inl hn
+  | restart => exact Or.inl hn
   | removeEmpty =>
     have f := foldRemove_frame (fun a => (c.namesOf a).isEmpty) s.dom s
     have : (step c s .removeEmpty).doneNodes = s.doneNodes := f.done
@@ -74,7 +75,7 @@ theorem step_done (c : Cfg) (s : St) (e : Ev) :
     have : (step c s .cacheMap).doneNodes = s.doneNodes := cacheMap_done c s
     rw [this] at hn; exact Or.inl hn
   | early upto =>
-    have hn' : n ∈ (if s.final then s else cleanTmp c s (min upto 2)).doneNodes := hn
+    have hn' : n ∈ (if s.final then s else cleanTmp c s (min upto 3)).doneNodes := hn
     split at hn'
     · exact Or.inl hn'
     · rw [(cleanTmp_fields c s _).2.2.2.2] at hn'; exact Or.inl hn'
